@@ -31,6 +31,7 @@ func emptyTarget() *GT {
 func runReaderProps(r *Run, prop string) {
 	if prop == "C03" {
 		bigRegularBlock(r)
+		bigArrayBlocks(r)
 	}
 	n := r.N(260, 6000)
 	fam := readerFamily()
@@ -343,6 +344,93 @@ func bigRegularBlock(r *Run) {
 			r.Fail(-1, "legal-file-rejected", "ReadFile rejects a legal file with one very regular block: "+err.Error(), desc)
 		case got != n+2 || nonNull != 1:
 			r.Fail(-1, "file-record-count", fmt.Sprintf("ReadFile delivered %d records (%d non-null), the file holds %d (1 non-null)", got, nonNull, n+2), desc)
+		}
+	}
+}
+
+// bigArrayBlocks: a spec-legal array written in several blocks, one of which (not the
+// first) holds more than 65536 items; plain and size-prefixed; also a long map.
+func bigArrayBlocks(r *Run) {
+	type row struct {
+		A    []int64          `json:"a"`
+		M    map[string]int64 `json:"m"`
+		Tail int64            `json:"tail"`
+	}
+	s := avro.Schema{Type: "record", Object: &avro.SchemaObject{Name: "row", Fields: []avro.SchemaRecordField{
+		{Name: "a", Type: avro.Schema{Type: "array", Object: &avro.SchemaObject{Items: prim("long")}}},
+		{Name: "m", Type: avro.Schema{Type: "map", Object: &avro.SchemaObject{Values: prim("long")}}},
+		{Name: "tail", Type: prim("long")}}}}
+	codec, err := s.Codec(row{})
+	if err != nil {
+		r.Fail(-1, "compat-build", "Schema.Codec: "+err.Error(), nil)
+		return
+	}
+	for _, sized := range []bool{false, true} {
+		for _, layout := range [][]int{{5, 66000, 10}, {70000}, {1, 1, 65537, 1}, {65536, 65537}} {
+			total := 0
+			var enc []byte
+			for _, n := range layout {
+				var body []byte
+				for i := 0; i < n; i++ {
+					body = append(body, specVarint(int64(total+i))...)
+				}
+				if sized {
+					enc = append(enc, specVarint(-int64(n))...)
+					enc = append(enc, specVarint(int64(len(body)))...)
+				} else {
+					enc = append(enc, specVarint(int64(n))...)
+				}
+				enc = append(enc, body...)
+				total += n
+			}
+			enc = append(enc, 0)
+			// a map of 3000 entries in two blocks
+			for _, part := range [][2]int{{0, 2000}, {2000, 3000}} {
+				enc = append(enc, specVarint(int64(part[1]-part[0]))...)
+				for i := part[0]; i < part[1]; i++ {
+					k := fmt.Sprintf("key-%05d", i)
+					enc = append(enc, specVarint(int64(len(k)))...)
+					enc = append(enc, k...)
+					enc = append(enc, specVarint(int64(i))...)
+				}
+			}
+			enc = append(enc, 0)
+			enc = append(enc, specVarint(-77)...)
+			var dst row
+			rb := avro.NewReadBuf(enc)
+			rerr := func() (err error) {
+				defer func() {
+					if p := recover(); p != nil {
+						err = fmt.Errorf("PANIC: %v", p)
+					}
+				}()
+				return codec.Read(rb, unsafe.Pointer(&dst))
+			}()
+			desc := map[string]any{"kind": "big-array-blocks", "layout": layout, "sized": sized}
+			r.Count("big-array-blocks")
+			bad := ""
+			switch {
+			case rerr != nil:
+				bad = "decoding a legal encoding fails: " + rerr.Error()
+			case len(dst.A) != total || dst.Tail != -77 || rb.Len() != 0 || len(dst.M) != 3000:
+				bad = fmt.Sprintf("decoded %d items (of %d), %d map entries (of 3000), tail %d (of -77), %d bytes left", len(dst.A), total, len(dst.M), dst.Tail, rb.Len())
+			default:
+				for i, v := range dst.A {
+					if v != int64(i) {
+						bad = fmt.Sprintf("item %d decoded as %d", i, v)
+						break
+					}
+				}
+				for i := 0; i < 3000 && bad == ""; i += 97 {
+					if dst.M[fmt.Sprintf("key-%05d", i)] != int64(i) {
+						bad = fmt.Sprintf("map entry key-%05d decoded as %d", i, dst.M[fmt.Sprintf("key-%05d", i)])
+					}
+				}
+			}
+			if bad != "" {
+				r.Fail(-1, "legal-rejected", bad, desc)
+			}
+			rb.ExtractResourceBank().Close()
 		}
 	}
 }
